@@ -25,9 +25,10 @@ SKIP |= {"handle_str_bos_overflow"}        # internal helper (not in the public 
 # Nested constraints that cannot fire for value-level reasons the path analysis cannot see; each is an explicit assumption in the evidence.
 _FIT = "the source length was measured with strlen and compared with dmax immediately before the copy"
 ASSUME_QUIET = {
-    "_asctime_s_chk": {"_strcpy_s_chk": ["not enough space", "overlapping objects"]},
-    "_ctime_s_chk": {"_strcpy_s_chk": ["not enough space", "overlapping objects"]},
-    "_getenv_s_chk": {"_strcpy_s_chk": ["not enough space", "overlapping objects"]},
+    # PROVE-FIT: 'not enough space' is dropped only on paths where a measured strlen(src) < dmax is entailed at the nested call (checked, not assumed)
+    "_asctime_s_chk": {"_strcpy_s_chk": ["PROVE-FIT", "overlapping objects"]},
+    "_ctime_s_chk": {"_strcpy_s_chk": ["PROVE-FIT", "overlapping objects"]},
+    "_getenv_s_chk": {"_strcpy_s_chk": ["PROVE-FIT", "overlapping objects"]},
     "_strerror_s_chk": {"_strcpy_s_chk": ["not enough space", "overlapping objects", "src is null"],
                         "_strncpy_s_chk": ["not enough space", "overlapping objects", "src is null"],
                         "_strcat_s_chk": ["not enough space", "overlapping objects", "dest unterminated"]},
@@ -87,7 +88,8 @@ def worker(prog, name):
     classes = set()
     for (rv, st, path) in res:
         cnt, code, msgs = st.pl[:3]
-        errp = st.pl[3] if len(st.pl) > 3 else None
+        errp = st.pl[3]
+        has_errp = "errp" in fn.pnames
         d = describe(rv)
         classes.add((d, cnt))
         base = api.base_name(name)
@@ -150,7 +152,7 @@ def worker(prog, name):
                 nonnull = rv[1] != "null" and eng.decide(("cmp", "eq", eng.as_lin(rv), Lin.const(0)), st.facts) is False
                 if nonnull and cnt == 1:
                     add("handler-on-success", "the handler is invoked but a non-null result is returned")
-                if len(st.pl) > 3 and isnull:
+                if has_errp and isnull:
                     # pointer result with an errno_t out-parameter (stpcpy_s family): *errp is the code
                     if cnt == 0 and errp is not None and not (errp.is_const() and int(errp.c) in STATUS_OK):
                         add("error-without-handler", "NULL is returned with *errp = %s without invoking the constraint handler" % errp)
